@@ -43,6 +43,7 @@ type model struct {
 	lstOrd  []string
 	inConc  bool
 	concPh  int
+	lastBarrier string
 }
 
 func newModel() *model {
@@ -231,6 +232,15 @@ func (m *model) checkReplay(replay []opclient.Frame, s0, s1 [][]byte, self strin
 		if f.Head.OneTime == "true" {
 			out = append(out, finding{Sig: "replay:one-shot-event-replayed", What: "a frame marked one-shot was replayed from the log",
 				Det: map[string]any{"index": i, "frame": brief(f.Raw)}})
+			return out
+		}
+	}
+
+	// (3b) sessions are announced after the log, never from it
+	for i, f := range part1 {
+		if f.Head.Event == opclient.EvSession && f.Body.SubEvent == opclient.SessNew {
+			out = append(out, finding{Sig: "replay:session-announced-from-retained-log", What: "a new-session announcement is replayed from the retained log (sessions are announced once, after it)",
+				Det: map[string]any{"index": i, "agent": f.InfoStr("NameID")}})
 			return out
 		}
 	}
